@@ -705,4 +705,115 @@ theorem copyTree_ok {fixed : Bool} {fuel : Nat} {s s' : State} {a : Args} {sel :
                   rw [hfr]
                   simpa using k4 p hp
 
+theorem nodup_eraseDups (l : List Int) : l.eraseDups.Nodup := by
+  generalize hn : l.length = n
+  induction n using Nat.strongRecOn generalizing l with
+  | _ n ih =>
+    cases l with
+    | nil => simp
+    | cons a as =>
+      rw [List.eraseDups_cons, List.nodup_cons]
+      constructor
+      · rw [List.mem_eraseDups, List.mem_filter]
+        simp
+      · apply ih (as.filter fun b => !b == a).length _ _ rfl
+        have := List.length_filter_le (fun b => !b == a) as
+        simp at hn; omega
+
+theorem unknownOf_spec (fixed : Bool) (known : List Int) (t : Trig) :
+    (∀ i ∈ unknownOf fixed known t, i ∉ known) ∧ (fixed = true → (unknownOf fixed known t).Nodup) := by
+  unfold unknownOf
+  constructor
+  · intro i hi
+    split at hi
+    · rw [List.mem_eraseDups, List.mem_filter] at hi
+      simpa using hi.2
+    · rw [List.mem_filter] at hi
+      simpa using hi.2
+  · intro hf
+    simp only [hf, if_true]
+    exact nodup_eraseDups _
+
+theorem foldlM_inv {α : Type} {P : List Int → Prop} {f : List Int → α → Except Err (List Int)}
+    (hf : ∀ k i k', P k → f k i = .ok k' → P k') :
+    ∀ {l : List α} {init r : List Int}, P init → l.foldlM f init = .ok r → P r := by
+  intro l
+  induction l with
+  | nil => intro init r hp h; simp only [List.foldlM_nil, pure, Except.pure] at h; injection h with h; subst h; exact hp
+  | cons x xs ih =>
+    intro init r hp h
+    simp only [List.foldlM_cons, bind, Except.bind] at h
+    split at h
+    · cases h
+    · rename_i k' hk
+      exact ih (hf _ _ _ hp hk) h
+
+/-- with the repair, no trigger index enters the node list twice -/
+theorem dfs_nodup {s : State} :
+    ∀ {fuel : Nat} {a : Nat} {known k' : List Int}, dfs true s fuel a known = .ok k' → known.Nodup → k'.Nodup := by
+  intro fuel
+  induction fuel with
+  | zero => intro a known k' h; simp [dfs] at h
+  | succ n ih =>
+    intro a known k' h hn
+    unfold dfs at h
+    split at h
+    · cases h
+    · rename_i t ht
+      split at h
+      · injection h with h; subst h; exact hn
+      · have hu := unknownOf_spec true known t
+        refine foldlM_inv (P := List.Nodup) (f := fun k i =>
+            match pyGet s.list i with
+            | .error e => .error e
+            | .ok a' => dfs true s n a' k) ?_ ?_ h
+        · intro k i k'' hk hki
+          split at hki
+          · cases hki
+          · exact ih hki hk
+        · rw [List.nodup_append]
+          refine ⟨hn, hu.2 rfl, ?_⟩
+          intro x hx y hy e
+          subst e
+          exact hu.1 x hy hx
+
+/-- equal except possibly the target of a (de)activation effect -/
+def SameUpToLink (c' c'' : Comp) : Prop :=
+  c'.kind = c''.kind ∧ c'.src = c''.src ∧ c'.tgt = c''.tgt ∧ c'.rest = c''.rest ∧
+    (isAct c''.kind = false → c'.link = c''.link)
+
+theorem sameUpToLink_of_strip {c' c'' : Comp} (h : stripLink c' = stripLink c'') : SameUpToLink c' c'' := by
+  obtain ⟨a1, a2, a3, a4, a5⟩ := stripLink_fields c'
+  obtain ⟨b1, b2, b3, b4, b5⟩ := stripLink_fields c''
+  have hk : c'.kind = c''.kind := by rw [← a1, ← b1, h]
+  refine ⟨hk, by rw [← a2, ← b2, h], by rw [← a3, ← b3, h], by rw [← a4, ← b4, h], ?_⟩
+  intro hact
+  rw [← a5 (hk ▸ hact), ← b5 hact, h]
+
+/-- components of an object whose frame is that of a rewritten source -/
+theorem corr_of_frame {g : Comp → Comp} {lk : Lock} {t0 t' : Trig} (hf : frame t' = frame (rewriteSpec g lk t0))
+    {isEff : Bool} {j : Nat} {c c' : Comp} (h : Corr t0 t' isEff j c c') :
+    SameUpToLink c' (if lockedAt lk isEff j c then c else g c) := by
+  unfold frame rewriteSpec at hf
+  injection hf with hf1 hf2
+  simp only at hf1 hf2
+  unfold Corr at h
+  unfold lockedAt
+  cases isEff
+  · simp only [Bool.false_eq_true, if_false] at h ⊢
+    obtain ⟨h1, h2⟩ := h
+    rw [hf1, List.getElem?_mapIdx, h1] at h2
+    simp only [Option.map_some] at h2
+    injection h2 with h2
+    rw [← h2]
+    exact ⟨rfl, rfl, rfl, rfl, fun _ => rfl⟩
+  · simp only [if_true] at h ⊢
+    obtain ⟨h1, h2⟩ := h
+    apply sameUpToLink_of_strip
+    have e1 : (t'.effs.map stripLink)[j]? = some (stripLink c') := by rw [List.getElem?_map, h2]; rfl
+    rw [hf2, List.getElem?_map, List.getElem?_mapIdx, h1] at e1
+    simp only [Option.map_some] at e1
+    injection e1 with e1
+    exact e1.symm
+
 end Aoe.PerPlayer
